@@ -126,6 +126,8 @@ pub fn c03_cells(ctx: &Ctx) -> Vec<Cell> {
         }
     }
     cells.extend(extra_cells(ctx.seed, if ctx.thorough() { 24 } else { 6 }));
+    // integer extremes (the C03 statement's envelope is the C05 one: "every valid parameter set")
+    cells.extend(crate::envelope::hyper_huge_cells());
     // documented-infinite special cases, asserted on every stream class (outside E, fixed)
     cells.push(Cell::new(Fam::Exp, Ft::F64, &[0.0]));
     cells.push(Cell::new(Fam::Exp, Ft::F32, &[0.0]));
@@ -173,7 +175,10 @@ pub fn run_c03(ctx: &Ctx) {
         let lat = cell_lattice(cell, &base_lat);
         let mut evals = 0u64;
         let mut nontriv = 0u64;
-        for sd in 0..r_seeds {
+        // a cell whose calls keep exhausting the 1e5-word budget is reported (three times) and then left:
+        // every further call would cost 1e5 words and say the same thing
+        let mut budget_hits = 0u32;
+        'seeds: for sd in 0..r_seeds {
             let seed = hseed(&[ctx.seed, cell.hash64(), sd]);
             for pos in 0..8u64 {
                 for &w in &lat {
@@ -186,6 +191,12 @@ pub fn run_c03(ctx: &Ctx) {
                     }
                     if let Some((sym, msg)) = res.violation {
                         report(ctx, &case, &sym, &msg);
+                        if sym == "word_budget" {
+                            budget_hits += 1;
+                            if budget_hits >= 3 {
+                                break 'seeds;
+                            }
+                        }
                     }
                     if sd == 0 && pos == 0 && w == lat[5] {
                         ctx.sample(cell.hash64(), || json!({"case": case, "words_consumed": res.words}));
@@ -219,6 +230,13 @@ pub fn run_c03(ctx: &Ctx) {
                 }
             }
         }
+        if budget_hits >= 3 {
+            ctx.class("cells_left_after_3_word_budget_violations", 1);
+            ctx.eval(evals);
+            ctx.nontrivial_add(nontriv);
+            ctx.class(&format!("cells:{}", cell.fam.name()), 1);
+            return;
+        }
         // ordinary random streams: rare-but-ordinary branches (rejection tails, region boundaries) at volume
         let m_rand: u64 = if ctx.thorough() { 2_000_000 } else { 100_000 };
         let seedr = hseed(&[ctx.seed, cell.hash64(), 0xAAD]);
@@ -233,6 +251,7 @@ pub fn run_c03(ctx: &Ctx) {
                 Ok(v) => check_val(cell, &v),
             };
             if let Some((sym, msg)) = viol {
+                let msg_is_budget = sym == "word_budget";
                 if !reported {
                     // replay: same seed, i+1 calls
                     ctx.violation(Violation {
@@ -246,7 +265,7 @@ pub fn run_c03(ctx: &Ctx) {
                     });
                     reported = true;
                 }
-                if sym_is_fatal(&rng) {
+                if sym_is_fatal(&rng) || msg_is_budget {
                     break;
                 }
             }
